@@ -173,6 +173,29 @@ class Facts:
     def fns(self, q):
         return self.by_q.get(q, [])
 
+    def memptr_target(self, mp, depth=0):
+        """(method name, qualified name) a pointer-to-member expression denotes when that is fixed by the source:
+        `&C::m`, or a field of a constant aggregate initialised with such pointers (`dynamic_forall.begin`)"""
+        while isinstance(mp, dict) and mp.get("k") in ("cast", "paren", "materialize"):
+            mp = mp.get("e")
+        if not isinstance(mp, dict) or depth > 4:
+            return None
+        if mp.get("k") == "un" and mp.get("op") == "&" and isinstance(mp.get("e"), dict) and mp["e"].get("dk") == "func":
+            return mp["e"].get("name"), mp["e"].get("q")
+        if mp.get("k") == "member" and isinstance(mp.get("base"), dict):
+            b = mp["base"]
+            while b.get("k") in ("cast", "paren", "materialize") and isinstance(b.get("e"), dict):
+                b = b["e"]
+            if b.get("k") == "ref" and b.get("dk") == "global":
+                for g in self.globals.get(b.get("q") or b.get("name"), []):
+                    init = g.get("init")
+                    rec = self.records.get(mp.get("of") or "") or self.records.get((g.get("ct") or "").replace("const ", ""))
+                    if isinstance(init, dict) and init.get("k") == "initlist" and rec:
+                        names = [f_["name"] for f_ in rec.get("fields", [])]
+                        if mp.get("name") in names and names.index(mp["name"]) < len(init.get("e", [])):
+                            return self.memptr_target(init["e"][names.index(mp["name"])], depth + 1)
+        return None
+
     # normal form (helpers put back, see inline.normalize_fn); cached per function object
     def normal(self, fn):
         from .inline import normalize_fn
@@ -254,6 +277,18 @@ class Facts:
 CURRENT = None      # the Facts object of this run (set by Facts.__init__), for rule helpers that only get a function
 
 
+def _single_call_site(F, q):
+    cache = F.__dict__.setdefault("_callsite_count", None)
+    if cache is None:
+        cache = {}
+        for g in F.functions.values():
+            for c in calls(g.get("body")):
+                if c.get("fn"):
+                    cache[c["fn"]] = cache.get(c["fn"], 0) + 1
+        F.__dict__["_callsite_count"] = cache
+    return cache.get(q, 0) == 1
+
+
 def inline_stmt_calls(fn, F, depth=0):
     """A copy of function facts `fn` in which every *expression statement* that is a call of
          - a lambda object declared in the same function (`const auto check = [&](..) {..}; check(a, b);`), or
@@ -282,7 +317,94 @@ def inline_stmt_calls(fn, F, depth=0):
             return n
         if n.get("k") == "ref" and n.get("dk") == "param" and n.get("name") in env:
             return env[n["name"]]
-        return {k: subst(v, env) if isinstance(v, (dict, list)) else v for k, v in n.items()}
+        out = {k: subst(v, env) if isinstance(v, (dict, list)) else v for k, v in n.items()}
+        if out.get("k") == "call" and out.get("ck") == "indirect" and isinstance(out.get("callee"), dict):
+            ce = out["callee"]
+            while ce.get("k") in ("cast", "paren") and isinstance(ce.get("e"), dict):
+                ce = ce["e"]
+            if ce.get("k") == "un" and ce.get("op") in ("&", "*") and isinstance(ce.get("e"), dict):
+                ce = ce["e"]
+            if ce.get("k") == "ref" and ce.get("dk") == "func":
+                # a call through a function-pointer parameter that was bound to a named function: `pred(label)` with
+                # pred := is_guard is the direct call is_guard(label)
+                out = dict(out, ck="free", name=ce.get("name"), fn=ce.get("q") or ce.get("name"))
+                out.pop("callee", None)
+        return out
+
+    def splice(ss, then, depth=0):
+        """the statements of a value-returning lambda body with `return true;` replaced by `then` and `return false;` by
+        nothing; statements after an `if` that returns are copied into its branches.  None if a return has another
+        value or the nesting is too deep."""
+        out = []
+        for i, st in enumerate(ss):
+            k = st.get("k") if isinstance(st, dict) else None
+            if k == "return":
+                e = st.get("e")
+                while isinstance(e, dict) and e.get("k") in ("cast", "paren"):
+                    e = e["e"]
+                if isinstance(e, dict) and e.get("k") == "bool":
+                    return out + (copy.deepcopy(then) if e["v"] else [])
+                return None
+            if k == "block":
+                r = splice(list(st.get("s", [])) + ss[i + 1:], then, depth)
+                return None if r is None else out + r
+            if k == "if" and any(x.get("k") == "return" for x in walk(st)) and depth < 6:
+                rest = ss[i + 1:]
+                th = st.get("then")
+                th_ss = th.get("s", []) if isinstance(th, dict) and th.get("k") == "block" else ([th] if th is not None else [])
+                el = st.get("else")
+                el_ss = el.get("s", []) if isinstance(el, dict) and el.get("k") == "block" else ([el] if el is not None else [])
+                a = splice(list(th_ss) + rest, then, depth + 1)
+                b = splice(list(el_ss) + rest, then, depth + 1)
+                if a is None or b is None:
+                    return None
+                node = {"k": "if", "l": st.get("l"), "c": st["c"], "then": {"k": "block", "s": a}}
+                if b:
+                    node["else"] = {"k": "block", "s": b}
+                return out + [node]
+            if isinstance(st, dict) and any(x.get("k") == "return" for x in walk(st)):
+                return None         # a return inside a loop etc.
+            out.append(st)
+        return out + copy.deepcopy(then)        # fell off the end (void lambda)
+
+    def fold_if(n):
+        """`if (A && lam(args)) THEN` (no else) with a local bool lambda: `if (A) { body of lam with THEN where it
+        returns true }`"""
+        if n.get("else") is not None:
+            return None
+        parts = []
+
+        def flat(c):
+            c0 = c
+            while isinstance(c0, dict) and c0.get("k") in ("paren",):
+                c0 = c0["e"]
+            if isinstance(c0, dict) and c0.get("k") == "bin" and c0.get("op") == "&&":
+                flat(c0["lhs"])
+                flat(c0["rhs"])
+            else:
+                parts.append(c0)
+        flat(n["c"])
+        if not parts:
+            return None
+        last = parts[-1]
+        ce = callee_of(last) if isinstance(last, dict) else None
+        if ce is None:
+            return None
+        params, cbody = ce
+        env = dict(zip(params, last.get("args", [])))
+        body = subst(copy.deepcopy(cbody), env)
+        th = n.get("then")
+        th_ss = th.get("s", []) if isinstance(th, dict) and th.get("k") == "block" else ([th] if th is not None else [])
+        sp = splice(list(body.get("s", [])) if body.get("k") == "block" else [body], list(th_ss))
+        if sp is None:
+            return None
+        inner = {"k": "block", "l": n.get("l"), "inlined_from": short(last)[:40], "s": sp}
+        if len(parts) == 1:
+            return inner
+        cond = parts[0]
+        for p_ in parts[1:-1]:
+            cond = {"k": "bin", "op": "&&", "lhs": cond, "rhs": p_, "l": n.get("l")}
+        return {"k": "if", "l": n.get("l"), "c": cond, "then": inner}
 
     def callee_of(c):
         if c.get("k") != "call":
@@ -295,6 +417,14 @@ def inline_stmt_calls(fn, F, depth=0):
             for t in F.fns(c["fn"]):
                 if t.get("body") is not None and t.get("file") == fn.get("file") and t["q"] != fn["q"] and \
                         len(t["params"]) == len(c.get("args", [])) and t.get("static"):
+                    return [p["name"] for p in t["params"]], t["body"]
+        if c.get("ck") == "member" and c.get("fn") and (c.get("recv") is None or (c.get("recv") or {}).get("k") == "this") \
+                and depth < 2 and fn.get("cls") and c.get("fn", "").rsplit("::", 1)[0] == fn.get("cls"):
+            # a member of the same class with this one call site in the whole program: a part split off this function
+            # (`visitLocation` -> `checkInvariant(loc)`), not an interface of its own
+            for t in F.fns(c["fn"]):
+                if t.get("body") is not None and t.get("file") == fn.get("file") and t["q"] != fn["q"] and \
+                        len(t["params"]) == len(c.get("args", [])) and not t.get("virtual") and _single_call_site(F, t["q"]):
                     return [p["name"] for p in t["params"]], t["body"]
         return None
 
@@ -315,6 +445,12 @@ def inline_stmt_calls(fn, F, depth=0):
                     env = dict(zip(params, n.get("args", [])))
                     return {"k": "block", "l": n.get("l"), "inlined_from": short(n)[:40],
                             "s": rec(subst(copy.deepcopy(cbody), env)).get("s", [])}
+                # a bool lambda called for its effects only: its body with the returns dropped
+                env = dict(zip(params, n.get("args", [])))
+                body = subst(copy.deepcopy(cbody), env)
+                sp = splice(list(body.get("s", [])) if body.get("k") == "block" else [body], [])
+                if sp is not None:
+                    return {"k": "block", "l": n.get("l"), "inlined_from": short(n)[:40], "s": sp}
         return {k: rec(v) if isinstance(v, (dict, list)) and k != "params" else v for k, v in n.items()}
 
     def stmts(n):
@@ -329,6 +465,9 @@ def inline_stmt_calls(fn, F, depth=0):
         if k == "block":
             return dict(n, s=[stmts(x) for x in n.get("s", [])])
         if k == "if":
+            folded = fold_if(n)
+            if folded is not None:
+                return stmts(folded)
             return dict(n, then=stmts(n.get("then")), **({"else": stmts(n["else"])} if n.get("else") is not None else {}))
         if k in ("for", "while", "do", "rangefor", "switch"):
             return dict(n, body=stmts(n.get("body")))
